@@ -178,6 +178,11 @@ pub trait Scenario: Sync {
     fn key_extra(&self, _w: &World) -> u64 {
         0
     }
+    /// state of a history-dependent oracle (reference model), as part of the state
+    /// key: two histories may only be merged if the oracle will treat them alike
+    fn key_hist(&self, _hist: &[Act]) -> u64 {
+        0
+    }
     /// whether the generic Spec comparison applies to this action
     fn spec_applies(&self, _a: &Act) -> bool {
         true
@@ -227,6 +232,17 @@ pub fn state_key(scn: &dyn Scenario, w: &mut World) -> u128 {
     let held: Vec<Vec<Vec<u8>>> = w.conns.iter().map(|c| c.held.iter().cloned().collect()).collect();
     let closed: Vec<bool> = w.conns.iter().map(|c| c.client_closed).collect();
     hash128(&(snap, infos, life, avail, held, closed, scn.key_extra(w)))
+}
+
+/// State key including the scenario's history-dependent oracle state.
+pub fn full_key(scn: &dyn Scenario, w: &mut World, hist: &[Act]) -> u128 {
+    let k = state_key(scn, w);
+    let h = scn.key_hist(hist);
+    if h == 0 {
+        k
+    } else {
+        hash128(&(k, h))
+    }
 }
 
 pub fn apply(w: &mut World, a: &Act) -> Result<(), MachineryError> {
@@ -424,7 +440,7 @@ fn expand(scn: &dyn Scenario, hist: &[Act], key: u128, want_sample: bool) -> Exp
     }
     let mut w = mach!(build(scn, hist));
     ex.replays += 1;
-    let k0 = state_key(scn, &mut w);
+    let k0 = full_key(scn, &mut w, hist);
     if k0 != key {
         ex.machinery = Some(format!("replay divergence: state key differs on rebuild (history {:?})", hist.iter().map(|a| a.render()).collect::<Vec<_>>()));
         return ex;
@@ -452,7 +468,7 @@ fn expand(scn: &dyn Scenario, hist: &[Act], key: u128, want_sample: bool) -> Exp
         let (pre, obs, post) = mach!(observe(&mut w, &p, depth));
         ex.probes += 1;
         let fs = judge(scn, &cfg, &pfocus, &pre, &obs, &post, &mut ex.goals, &mut st);
-        let k1 = state_key(scn, &mut w);
+        let k1 = full_key(scn, &mut w, hist);
         if want_sample && sample_probes.len() < 3 {
             sample_probes.push(serde_json::json!({"probe": p.render(), "lines": obs.lines}));
         }
@@ -523,7 +539,11 @@ fn one_action(scn: &dyn Scenario, hist: &[Act], a: &Act, want_sample: bool) -> E
         }
     };
     let mut fs = judge(scn, &cfg, &scn.focus(), &pre, &obs, &post, &mut ex.goals, &mut st);
-    let k = state_key(scn, &mut w2);
+    let k = {
+        let mut h2 = hist.to_vec();
+        h2.push(a.clone());
+        full_key(scn, &mut w2, &h2)
+    };
     if fs.is_empty() {
         fs.extend(scn.after_step(&mut w2, &pre, &obs, &post, &mut ex.goals));
     }
@@ -597,7 +617,7 @@ pub fn run(scn: &dyn Scenario, lim: &Limits) -> BfsOut {
     let mut seen: HashSet<u128> = HashSet::new();
     // initial state
     let k0 = match build(scn, &[]) {
-        Ok(mut w) => state_key(scn, &mut w),
+        Ok(mut w) => full_key(scn, &mut w, &[]),
         Err(MachineryError(m)) => {
             return BfsOut {
                 stats,
@@ -721,7 +741,7 @@ fn expand_leaf(scn: &dyn Scenario, hist: &[Act], key: u128) -> Expansion {
             return ex;
         }
     };
-    let k0 = state_key(scn, &mut w);
+    let k0 = full_key(scn, &mut w, hist);
     if k0 != key {
         ex.machinery = Some(format!("replay divergence at leaf (history {:?})", hist.iter().map(|a| a.render()).collect::<Vec<_>>()));
         return ex;
@@ -749,7 +769,7 @@ fn expand_leaf(scn: &dyn Scenario, hist: &[Act], key: u128) -> Expansion {
         };
         ex.probes += 1;
         let fs = judge(scn, &cfg, &pfocus, &pre, &obs, &post, &mut ex.goals, &mut st);
-        let k1 = state_key(scn, &mut w);
+        let k1 = full_key(scn, &mut w, hist);
         for f in fs {
             let mut h = hist.to_vec();
             h.push(p.clone());
